@@ -640,11 +640,14 @@ PROPS = {
         "level": "other", "explanation": "", "assumptions": [],
     },
     "C13": {
-        "module": "DnsModel.Theorems.C13", "theorems": ["Dns.C13.synth_total", "Dns.C13.rawNameFromStr_total", "Dns.C13.grammar_iff", "Dns.C13.excluded_is_error", "Dns.C13.wellformed"],
+        "module": "DnsModel.Theorems.C13", "theorems": ["Dns.C13.synth_total", "Dns.C13.rawNameFromStr_total", "Dns.C13.grammar_iff", "Dns.C13.excluded_is_error", "Dns.C13.wellformed", "Dns.C13.synth_piece", "Dns.C13.insert_accepted"],
         "families": [{"name": "synth", "quick": 6000, "thorough": 400000}, {"name": "synth-insert", "quick": 1200, "thorough": 40000}],
         "oracle": oracle_c13, "nontrivial": lambda c, a: a.startswith("ok") or " ok b=" in a, "shrink": False,
         "rule": "record texts: 60% grammar-derived over the nine types with boundary values (TTL 0/2^32-1/2^32, 62/63-byte labels, 253/254-byte names, TXT 255/256/3825/3826 bytes and escapes, preference 65535/65536, digests of even/odd/zero length, 14 IPv6 forms), 30% single-token damage, 10% arbitrary bytes; plus insertion of the synthesised record into a valid response; non-trivial = distinct texts that synthesise",
-        "level": "other", "explanation": "", "assumptions": ["Ipv6Addr::from_str is std code: modelled for the driver, compared with Python's ipaddress in the oracle"],
+        "level": "proof",
+        "explanation": "theorems: synth t = Ok rr exactly when t is a text of the grammar stated in Spec/RecordText.lean (blanks, host-name owner, TTL, IN in any case, one of nine type words in any case, type-specific data) and rr is the RFC 1035 wire record it stands for (both directions, token by token); hence text outside the grammar is an error; synthesis is total (no panic, no loop); whatever is returned is a well-formed class-IN record wherever it is placed; inserting it into the answer / authority / additional section of a parsed packet (response for the first two, within the 8192-byte and 65535-record limits) succeeds and leaves bytes satisfying the acceptance policy; "
+                       "correspondence: real synthesis agrees with the model and with an independent Python synthesiser on grammar-derived, damaged and arbitrary texts, and with insertion into valid packets",
+        "assumptions": ["Ipv6Addr::from_str is std code: modelled (v6Groups / ipv6FromStr) and compared with Python's ipaddress in the oracle; the chomp1 combinator semantics is read from the vendored source (DESIGN Appendix A)"],
     },
     "C14": {
         "module": "DnsModel.Theorems.C14",
@@ -752,8 +755,8 @@ MANIFEST_TEXT = {
             "note": NOTE, "technique": "exhaustive small-scope correspondence + walk oracle"},
     "C12": {"text": "Lean theorems for all header words and all arguments: set_flags changes only bytes 2-3, keeps opcode and rcode (div/mod by position), sets each of QR AA TC RD RA Z AD CD to the argument's bit and ignores the argument's upper half; set_opcode / set_rcode / set_response / set_tid change only their field; every getter returns the stored field. Real behaviour compared with the model and with the frame condition computed from RFC 1035 field positions, exhaustively over all 65536 flag words in the thorough tier.",
             "note": NOTE, "technique": "exhaustive correspondence over flag words + div/mod oracle"},
-    "C13": {"text": "Proved: synthesis is total (every byte string gives a record or an error value; so does the host-name conversion). Not proved: the grammar round-trip. Deterministic recogniser mirroring the chomp combinator tree + builders; real synthesis compared with the model and with an independent Python synthesiser of the RFC 1035 wire form on grammar-derived, damaged and arbitrary texts, and the result inserted into valid packets." + PENDING,
-            "note": NOTE + " chomp1 combinator semantics read from the vendored source; Ipv6Addr::from_str modelled.", "technique": "model/implementation correspondence + reference synthesiser oracle"},
+    "C13": {"text": "Lean theorems: the record-text grammar is stated declaratively on the text (Spec/RecordText.lean: B* owner B+ ttl B+ IN B+ TYPE B+ rdata B*, host-name labels, decimal numerals with bounds, dotted quads, IPv6 groups with '::', quoted strings with \\DDD escapes, hex digests) together with the RFC 1035 wire form each text stands for; synth t = Ok rr holds exactly for the pairs of that relation (both directions), so excluded text (missing or surplus fields, out-of-range numbers, malformed addresses, unbalanced quotes, odd or non-hex digests) yields an error; synthesis is total; anything returned is a well-formed class-IN record wherever it is placed; inserting it into the answer/authority/additional section of a parsed packet leaves bytes that satisfy the acceptance policy. Real synthesis compared with the model and with an independent Python synthesiser on grammar-derived, damaged and arbitrary texts, and the result inserted into valid packets.",
+            "note": NOTE + " chomp1 combinator semantics read from the vendored source; Ipv6Addr::from_str modelled.", "technique": "Lean 4 proof (token-level iff lemmas for every parser of the recogniser, grammar relation, piece/assembly lemmas for insertion) + model/implementation correspondence + reference synthesiser oracle"},
     "C14": {"text": "Lean theorems for all byte strings and zones: the index-based loop of copy_raw_name_from_str is a left-to-right scan; it accepts exactly dot-separated labels of 1..62 dot-free bytes <= 128 (optional final dot; '.' and '' give the root) whose result fits 253 bytes (so every LDH/underscore name within the limits), returns the length-prefixed encoding of exactly those labels followed by 0 or the zone, rejects an empty label, a leading dot, a dot-free run of 63+, a text or result over 253; the result is a valid pointer-free name (labels 1..63, total <= 255) and the name accessor's text for it is the input without its final dot. Real conversion compared with the model exhaustively over a 7-symbol alphabet up to length 4 (quick) / 6 (thorough) with and without zone, boundary lengths; every accepted name is given to a record and read back.",
             "note": NOTE, "technique": "Lean 4 proof (loop = scan refinement, scan soundness/completeness by induction) + exhaustive small-alphabet correspondence + label oracle"},
     "C15": {"text": "Proved on data regenerated from c_abi.rs and c_hook.h on every run: the table's order, count (30) and ABI-class signatures agree with the header and the initialiser follows declaration order. Facade behaviour: hook scripts run through the Rust table and through a C driver compiled against the shipped header (-Wall -Werror), with canaries around caller buffers; transcripts must equal each other and the model's (which is the native semantics).",
